@@ -1182,6 +1182,13 @@ class Models:
     def builtin_method(self, eng, st, recv, k, name, pos, kw, fx):
         a = a_of(recv)
         pos = [eng.to_val(st, p) for p in pos]
+        # explicit calls of the item-protocol methods (e.g. a bound `container.__setitem__` passed around as a callable)
+        if name == "__setitem__" and len(pos) == 2 and k in ("list", "dict"):
+            return [Res("ok", r.st, NONE) if r.kind == "ok" else r for r in self.setitem(eng, st, recv, pos[0], pos[1], fx)]
+        if name == "__getitem__" and len(pos) == 1 and k in ("list", "dict", "tuple"):
+            return self.getitem(eng, st, recv, pos[0], fx)
+        if name == "__delitem__" and len(pos) == 1 and k in ("list", "dict"):
+            return [Res("ok", r.st, NONE) if r.kind == "ok" else r for r in self.delitem(eng, st, recv, pos[0], fx)]
         if k == "list":
             if name == "append":
                 n = st.get("llen", a)
